@@ -11,7 +11,7 @@ CONSTANTS
   FR = {"ok", "err"}
   Kinds = {"cfg", "nocfg", "fnsvc"}
   Reqs = {"a"}
-  Cfgs = {"k", "m"}
+  Cfgs = {"k"}
   Emit = TRUE
   AndThenCallsBOnErr = FALSE
   AndThenReadyShortCircuit = FALSE
